@@ -11,28 +11,39 @@ import (
 
 func pt(k string) { sched.Point("atomic."+k, nil) }
 
-func LoadInt32(a *int32) int32                         { pt("Load"); return atomic.LoadInt32(a) }
-func LoadInt64(a *int64) int64                         { pt("Load"); return atomic.LoadInt64(a) }
-func LoadUint32(a *uint32) uint32                      { pt("Load"); return atomic.LoadUint32(a) }
-func LoadUint64(a *uint64) uint64                      { pt("Load"); return atomic.LoadUint64(a) }
-func LoadUintptr(a *uintptr) uintptr                   { pt("Load"); return atomic.LoadUintptr(a) }
-func LoadPointer(a *unsafe.Pointer) unsafe.Pointer     { pt("LoadPointer"); return atomic.LoadPointer(a) }
-func StoreInt32(a *int32, v int32)                     { pt("Store"); atomic.StoreInt32(a, v) }
-func StoreInt64(a *int64, v int64)                     { pt("Store"); atomic.StoreInt64(a, v) }
-func StoreUint32(a *uint32, v uint32)                  { pt("Store"); atomic.StoreUint32(a, v) }
-func StoreUint64(a *uint64, v uint64)                  { pt("Store"); atomic.StoreUint64(a, v) }
-func StoreUintptr(a *uintptr, v uintptr)               { pt("Store"); atomic.StoreUintptr(a, v) }
-func StorePointer(a *unsafe.Pointer, v unsafe.Pointer) { pt("StorePointer"); atomic.StorePointer(a, v) }
-func AddInt32(a *int32, d int32) int32                 { pt("Add"); return atomic.AddInt32(a, d) }
-func AddInt64(a *int64, d int64) int64                 { pt("Add"); return atomic.AddInt64(a, d) }
-func AddUint32(a *uint32, d uint32) uint32             { pt("Add"); return atomic.AddUint32(a, d) }
-func AddUint64(a *uint64, d uint64) uint64             { pt("Add"); return atomic.AddUint64(a, d) }
-func AddUintptr(a *uintptr, d uintptr) uintptr         { pt("Add"); return atomic.AddUintptr(a, d) }
-func SwapInt32(a *int32, v int32) int32                { pt("Swap"); return atomic.SwapInt32(a, v) }
-func SwapInt64(a *int64, v int64) int64                { pt("Swap"); return atomic.SwapInt64(a, v) }
-func SwapUint32(a *uint32, v uint32) uint32            { pt("Swap"); return atomic.SwapUint32(a, v) }
-func SwapUint64(a *uint64, v uint64) uint64            { pt("Swap"); return atomic.SwapUint64(a, v) }
-func SwapUintptr(a *uintptr, v uintptr) uintptr        { pt("Swap"); return atomic.SwapUintptr(a, v) }
+// pa is pt with the address of the atomic variable as the operation's object.
+func pa(k string, addr any) {
+	sched.PointOp("atomic."+k, sched.OpSig{Obj: addr, Read: k == "Load" || k == "LoadPointer"}, nil)
+}
+
+func LoadInt32(a *int32) int32       { pa("Load", a); return atomic.LoadInt32(a) }
+func LoadInt64(a *int64) int64       { pa("Load", a); return atomic.LoadInt64(a) }
+func LoadUint32(a *uint32) uint32    { pa("Load", a); return atomic.LoadUint32(a) }
+func LoadUint64(a *uint64) uint64    { pa("Load", a); return atomic.LoadUint64(a) }
+func LoadUintptr(a *uintptr) uintptr { pa("Load", a); return atomic.LoadUintptr(a) }
+func LoadPointer(a *unsafe.Pointer) unsafe.Pointer {
+	pa("LoadPointer", a)
+	return atomic.LoadPointer(a)
+}
+func StoreInt32(a *int32, v int32)       { pa("Store", a); atomic.StoreInt32(a, v) }
+func StoreInt64(a *int64, v int64)       { pa("Store", a); atomic.StoreInt64(a, v) }
+func StoreUint32(a *uint32, v uint32)    { pa("Store", a); atomic.StoreUint32(a, v) }
+func StoreUint64(a *uint64, v uint64)    { pa("Store", a); atomic.StoreUint64(a, v) }
+func StoreUintptr(a *uintptr, v uintptr) { pa("Store", a); atomic.StoreUintptr(a, v) }
+func StorePointer(a *unsafe.Pointer, v unsafe.Pointer) {
+	pa("StorePointer", a)
+	atomic.StorePointer(a, v)
+}
+func AddInt32(a *int32, d int32) int32          { pa("Add", a); return atomic.AddInt32(a, d) }
+func AddInt64(a *int64, d int64) int64          { pa("Add", a); return atomic.AddInt64(a, d) }
+func AddUint32(a *uint32, d uint32) uint32      { pa("Add", a); return atomic.AddUint32(a, d) }
+func AddUint64(a *uint64, d uint64) uint64      { pa("Add", a); return atomic.AddUint64(a, d) }
+func AddUintptr(a *uintptr, d uintptr) uintptr  { pa("Add", a); return atomic.AddUintptr(a, d) }
+func SwapInt32(a *int32, v int32) int32         { pa("Swap", a); return atomic.SwapInt32(a, v) }
+func SwapInt64(a *int64, v int64) int64         { pa("Swap", a); return atomic.SwapInt64(a, v) }
+func SwapUint32(a *uint32, v uint32) uint32     { pa("Swap", a); return atomic.SwapUint32(a, v) }
+func SwapUint64(a *uint64, v uint64) uint64     { pa("Swap", a); return atomic.SwapUint64(a, v) }
+func SwapUintptr(a *uintptr, v uintptr) uintptr { pa("Swap", a); return atomic.SwapUintptr(a, v) }
 func SwapPointer(a *unsafe.Pointer, v unsafe.Pointer) unsafe.Pointer {
 	pt("SwapPointer")
 	return atomic.SwapPointer(a, v)
@@ -61,82 +72,85 @@ func CompareAndSwapPointer(a *unsafe.Pointer, o, n unsafe.Pointer) bool {
 	pt("CASPointer")
 	return atomic.CompareAndSwapPointer(a, o, n)
 }
-func AndInt32(a *int32, m int32) int32         { pt("And"); return atomic.AndInt32(a, m) }
-func AndUint32(a *uint32, m uint32) uint32     { pt("And"); return atomic.AndUint32(a, m) }
-func AndInt64(a *int64, m int64) int64         { pt("And"); return atomic.AndInt64(a, m) }
-func AndUint64(a *uint64, m uint64) uint64     { pt("And"); return atomic.AndUint64(a, m) }
-func AndUintptr(a *uintptr, m uintptr) uintptr { pt("And"); return atomic.AndUintptr(a, m) }
-func OrInt32(a *int32, m int32) int32          { pt("Or"); return atomic.OrInt32(a, m) }
-func OrUint32(a *uint32, m uint32) uint32      { pt("Or"); return atomic.OrUint32(a, m) }
-func OrInt64(a *int64, m int64) int64          { pt("Or"); return atomic.OrInt64(a, m) }
-func OrUint64(a *uint64, m uint64) uint64      { pt("Or"); return atomic.OrUint64(a, m) }
-func OrUintptr(a *uintptr, m uintptr) uintptr  { pt("Or"); return atomic.OrUintptr(a, m) }
+func AndInt32(a *int32, m int32) int32         { pa("And", a); return atomic.AndInt32(a, m) }
+func AndUint32(a *uint32, m uint32) uint32     { pa("And", a); return atomic.AndUint32(a, m) }
+func AndInt64(a *int64, m int64) int64         { pa("And", a); return atomic.AndInt64(a, m) }
+func AndUint64(a *uint64, m uint64) uint64     { pa("And", a); return atomic.AndUint64(a, m) }
+func AndUintptr(a *uintptr, m uintptr) uintptr { pa("And", a); return atomic.AndUintptr(a, m) }
+func OrInt32(a *int32, m int32) int32          { pa("Or", a); return atomic.OrInt32(a, m) }
+func OrUint32(a *uint32, m uint32) uint32      { pa("Or", a); return atomic.OrUint32(a, m) }
+func OrInt64(a *int64, m int64) int64          { pa("Or", a); return atomic.OrInt64(a, m) }
+func OrUint64(a *uint64, m uint64) uint64      { pa("Or", a); return atomic.OrUint64(a, m) }
+func OrUintptr(a *uintptr, m uintptr) uintptr  { pa("Or", a); return atomic.OrUintptr(a, m) }
 
 type Int32 struct{ v atomic.Int32 }
 
-func (x *Int32) Load() int32                    { pt("Load"); return x.v.Load() }
-func (x *Int32) Store(v int32)                  { pt("Store"); x.v.Store(v) }
-func (x *Int32) Swap(v int32) int32             { pt("Swap"); return x.v.Swap(v) }
-func (x *Int32) CompareAndSwap(o, n int32) bool { pt("CAS"); return x.v.CompareAndSwap(o, n) }
-func (x *Int32) Add(d int32) int32              { pt("Add"); return x.v.Add(d) }
-func (x *Int32) And(m int32) int32              { pt("And"); return x.v.And(m) }
-func (x *Int32) Or(m int32) int32               { pt("Or"); return x.v.Or(m) }
+func (x *Int32) Load() int32                    { pa("Load", x); return x.v.Load() }
+func (x *Int32) Store(v int32)                  { pa("Store", x); x.v.Store(v) }
+func (x *Int32) Swap(v int32) int32             { pa("Swap", x); return x.v.Swap(v) }
+func (x *Int32) CompareAndSwap(o, n int32) bool { pa("CAS", x); return x.v.CompareAndSwap(o, n) }
+func (x *Int32) Add(d int32) int32              { pa("Add", x); return x.v.Add(d) }
+func (x *Int32) And(m int32) int32              { pa("And", x); return x.v.And(m) }
+func (x *Int32) Or(m int32) int32               { pa("Or", x); return x.v.Or(m) }
 
 type Int64 struct{ v atomic.Int64 }
 
-func (x *Int64) Load() int64                    { pt("Load"); return x.v.Load() }
-func (x *Int64) Store(v int64)                  { pt("Store"); x.v.Store(v) }
-func (x *Int64) Swap(v int64) int64             { pt("Swap"); return x.v.Swap(v) }
-func (x *Int64) CompareAndSwap(o, n int64) bool { pt("CAS"); return x.v.CompareAndSwap(o, n) }
-func (x *Int64) Add(d int64) int64              { pt("Add"); return x.v.Add(d) }
-func (x *Int64) And(m int64) int64              { pt("And"); return x.v.And(m) }
-func (x *Int64) Or(m int64) int64               { pt("Or"); return x.v.Or(m) }
+func (x *Int64) Load() int64                    { pa("Load", x); return x.v.Load() }
+func (x *Int64) Store(v int64)                  { pa("Store", x); x.v.Store(v) }
+func (x *Int64) Swap(v int64) int64             { pa("Swap", x); return x.v.Swap(v) }
+func (x *Int64) CompareAndSwap(o, n int64) bool { pa("CAS", x); return x.v.CompareAndSwap(o, n) }
+func (x *Int64) Add(d int64) int64              { pa("Add", x); return x.v.Add(d) }
+func (x *Int64) And(m int64) int64              { pa("And", x); return x.v.And(m) }
+func (x *Int64) Or(m int64) int64               { pa("Or", x); return x.v.Or(m) }
 
 type Uint32 struct{ v atomic.Uint32 }
 
-func (x *Uint32) Load() uint32                    { pt("Load"); return x.v.Load() }
-func (x *Uint32) Store(v uint32)                  { pt("Store"); x.v.Store(v) }
-func (x *Uint32) Swap(v uint32) uint32            { pt("Swap"); return x.v.Swap(v) }
-func (x *Uint32) CompareAndSwap(o, n uint32) bool { pt("CAS"); return x.v.CompareAndSwap(o, n) }
-func (x *Uint32) Add(d uint32) uint32             { pt("Add"); return x.v.Add(d) }
-func (x *Uint32) And(m uint32) uint32             { pt("And"); return x.v.And(m) }
-func (x *Uint32) Or(m uint32) uint32              { pt("Or"); return x.v.Or(m) }
+func (x *Uint32) Load() uint32                    { pa("Load", x); return x.v.Load() }
+func (x *Uint32) Store(v uint32)                  { pa("Store", x); x.v.Store(v) }
+func (x *Uint32) Swap(v uint32) uint32            { pa("Swap", x); return x.v.Swap(v) }
+func (x *Uint32) CompareAndSwap(o, n uint32) bool { pa("CAS", x); return x.v.CompareAndSwap(o, n) }
+func (x *Uint32) Add(d uint32) uint32             { pa("Add", x); return x.v.Add(d) }
+func (x *Uint32) And(m uint32) uint32             { pa("And", x); return x.v.And(m) }
+func (x *Uint32) Or(m uint32) uint32              { pa("Or", x); return x.v.Or(m) }
 
 type Uint64 struct{ v atomic.Uint64 }
 
-func (x *Uint64) Load() uint64                    { pt("Load"); return x.v.Load() }
-func (x *Uint64) Store(v uint64)                  { pt("Store"); x.v.Store(v) }
-func (x *Uint64) Swap(v uint64) uint64            { pt("Swap"); return x.v.Swap(v) }
-func (x *Uint64) CompareAndSwap(o, n uint64) bool { pt("CAS"); return x.v.CompareAndSwap(o, n) }
-func (x *Uint64) Add(d uint64) uint64             { pt("Add"); return x.v.Add(d) }
-func (x *Uint64) And(m uint64) uint64             { pt("And"); return x.v.And(m) }
-func (x *Uint64) Or(m uint64) uint64              { pt("Or"); return x.v.Or(m) }
+func (x *Uint64) Load() uint64                    { pa("Load", x); return x.v.Load() }
+func (x *Uint64) Store(v uint64)                  { pa("Store", x); x.v.Store(v) }
+func (x *Uint64) Swap(v uint64) uint64            { pa("Swap", x); return x.v.Swap(v) }
+func (x *Uint64) CompareAndSwap(o, n uint64) bool { pa("CAS", x); return x.v.CompareAndSwap(o, n) }
+func (x *Uint64) Add(d uint64) uint64             { pa("Add", x); return x.v.Add(d) }
+func (x *Uint64) And(m uint64) uint64             { pa("And", x); return x.v.And(m) }
+func (x *Uint64) Or(m uint64) uint64              { pa("Or", x); return x.v.Or(m) }
 
 type Uintptr struct{ v atomic.Uintptr }
 
-func (x *Uintptr) Load() uintptr                    { pt("Load"); return x.v.Load() }
-func (x *Uintptr) Store(v uintptr)                  { pt("Store"); x.v.Store(v) }
-func (x *Uintptr) Swap(v uintptr) uintptr           { pt("Swap"); return x.v.Swap(v) }
-func (x *Uintptr) CompareAndSwap(o, n uintptr) bool { pt("CAS"); return x.v.CompareAndSwap(o, n) }
-func (x *Uintptr) Add(d uintptr) uintptr            { pt("Add"); return x.v.Add(d) }
+func (x *Uintptr) Load() uintptr                    { pa("Load", x); return x.v.Load() }
+func (x *Uintptr) Store(v uintptr)                  { pa("Store", x); x.v.Store(v) }
+func (x *Uintptr) Swap(v uintptr) uintptr           { pa("Swap", x); return x.v.Swap(v) }
+func (x *Uintptr) CompareAndSwap(o, n uintptr) bool { pa("CAS", x); return x.v.CompareAndSwap(o, n) }
+func (x *Uintptr) Add(d uintptr) uintptr            { pa("Add", x); return x.v.Add(d) }
 
 type Bool struct{ v atomic.Bool }
 
-func (x *Bool) Load() bool                    { pt("Load"); return x.v.Load() }
-func (x *Bool) Store(v bool)                  { pt("Store"); x.v.Store(v) }
-func (x *Bool) Swap(v bool) bool              { pt("Swap"); return x.v.Swap(v) }
-func (x *Bool) CompareAndSwap(o, n bool) bool { pt("CAS"); return x.v.CompareAndSwap(o, n) }
+func (x *Bool) Load() bool                    { pa("Load", x); return x.v.Load() }
+func (x *Bool) Store(v bool)                  { pa("Store", x); x.v.Store(v) }
+func (x *Bool) Swap(v bool) bool              { pa("Swap", x); return x.v.Swap(v) }
+func (x *Bool) CompareAndSwap(o, n bool) bool { pa("CAS", x); return x.v.CompareAndSwap(o, n) }
 
 type Pointer[T any] struct{ v atomic.Pointer[T] }
 
-func (x *Pointer[T]) Load() *T                    { pt("LoadPointer"); return x.v.Load() }
-func (x *Pointer[T]) Store(v *T)                  { pt("StorePointer"); x.v.Store(v) }
-func (x *Pointer[T]) Swap(v *T) *T                { pt("SwapPointer"); return x.v.Swap(v) }
-func (x *Pointer[T]) CompareAndSwap(o, n *T) bool { pt("CASPointer"); return x.v.CompareAndSwap(o, n) }
+func (x *Pointer[T]) Load() *T     { pa("LoadPointer", x); return x.v.Load() }
+func (x *Pointer[T]) Store(v *T)   { pa("StorePointer", x); x.v.Store(v) }
+func (x *Pointer[T]) Swap(v *T) *T { pa("SwapPointer", x); return x.v.Swap(v) }
+func (x *Pointer[T]) CompareAndSwap(o, n *T) bool {
+	pa("CASPointer", x)
+	return x.v.CompareAndSwap(o, n)
+}
 
 type Value struct{ v atomic.Value }
 
-func (x *Value) Load() any                    { pt("Load"); return x.v.Load() }
-func (x *Value) Store(v any)                  { pt("Store"); x.v.Store(v) }
-func (x *Value) Swap(v any) any               { pt("Swap"); return x.v.Swap(v) }
-func (x *Value) CompareAndSwap(o, n any) bool { pt("CAS"); return x.v.CompareAndSwap(o, n) }
+func (x *Value) Load() any                    { pa("Load", x); return x.v.Load() }
+func (x *Value) Store(v any)                  { pa("Store", x); x.v.Store(v) }
+func (x *Value) Swap(v any) any               { pa("Swap", x); return x.v.Swap(v) }
+func (x *Value) CompareAndSwap(o, n any) bool { pa("CAS", x); return x.v.CompareAndSwap(o, n) }
